@@ -1,5 +1,7 @@
 import Aldy.Lemmas.Enumerate
 import Aldy.Lemmas.Gadgets
+import Aldy.Generated.Constants
+import Mathlib.Tactic.NormNum
 
 /-!
 # C05 — the ILP layer returns true optima and exact linearisations
@@ -94,6 +96,21 @@ theorem stop_test_meaning (heps : 0 < eps) (best obj : Rat) :
     rejected gap eps best obj = true ↔ (1 + gap) * best + eps ≤ obj := rejected_iff heps
 
 end Loop
+
+/-! ## Obligations on the literals of the current source (`Generated/Constants.lean`) -/
+
+/-- The precision used by the stop test is positive (hypothesis `heps` of T1'-T6). -/
+theorem stop_eps_pos : 0 < Const.STOP_EPS := by
+  unfold Const.STOP_EPS; norm_num
+
+/-- "Within the gap" is meant up to the documented solver precision `1e-5`, not more. -/
+theorem stop_eps_small : Const.STOP_EPS ≤ 1 / 100000 := by
+  unfold Const.STOP_EPS; norm_num
+
+/-- Solutions are verified with a positive tolerance (a zero tolerance rejects optima
+whose floating-point residual is 1e-17). -/
+theorem verify_tol_pos : 0 < Const.VERIFY_TOL := by
+  unfold Const.VERIFY_TOL; norm_num
 
 /-! ## Helper builders are exact (re-stated from `Lemmas/Gadgets.lean`) -/
 
